@@ -1333,6 +1333,10 @@ impl Formatter {
         let mut get_now = || {
             if now.is_none() {
                 now = Some(Local::now().naive_local());
+                #[cfg(feature = "verif-hooks")]
+                {
+                    now = now.map(crate::verif_hooks::apply);
+                }
             }
             now.unwrap()
         };
